@@ -215,6 +215,45 @@ def run(ctx):
                 corr("resize", f"resize {shape[0]} {shape[1]} {tgt[0]} {tgt[1]} {flist(arr.ravel().tolist())}", out, False)
     ctx.cov["resize"] = {"cases": n_resize, "max_relative_sum_error": worst, "tolerance": RTOL}
 
+    # ------------------------------------------------------------------ ONE long-lived Resize object re-used on inputs of different shapes
+    # (theorem resize_history_indep): every call is compared with the same call on a fresh object, and the sequence with the model
+    n_seq = 0
+    for trial in range(ctx.pick(40, 400)):
+        T = (rng.randint(1, 4), rng.randint(1, 4))
+        k = rng.choice([2, 3])
+        shapes_in = [(T[0] * rng.choice([1, 2, 3]), T[1] * rng.choice([1, 2, 4])) for _ in range(k)]
+        if trial % 3 == 0:
+            shapes_in[-1] = T  # ends with the identity resize
+        dtype = np.float32 if trial % 4 == 1 else np.float64
+        as_image = trial % 2 == 0
+        use_ref = trial % 5 == 0
+        arrs = [dy_array(rng, sh, dtype) for sh in shapes_in]
+        mk = (lambda: d.Resize(ref_image=image(d, np.zeros(T), 2, [1.0, 1.0]), interpolation="inter_area", **{"resize conservative": True})) if use_ref \
+            else (lambda: d.Resize(shape=T, interpolation="inter_area", **{"resize conservative": True}))
+        obj = call(mk)
+        outs = []
+        for n, a in enumerate(arrs):
+            src = image(d, a, 2, [0.5 * a.shape[0], 0.25 * a.shape[1]]) if as_image else a.copy()
+            r1 = call(lambda: obj(src)) if not isinstance(obj, Raised) else obj
+            fo = call(mk)
+            r2 = call(lambda: fo(src)) if not isinstance(fo, Raised) else fo
+            v1 = r1 if isinstance(r1, Raised) else np.asarray(r1.img if as_image else r1)
+            v2 = r2 if isinstance(r2, Raised) else np.asarray(r2.img if as_image else r2)
+            n_seq += 1
+            ctx.count(("resize-seq", T, tuple(shapes_in), n, as_image, str(dtype)), nontrivial=n > 0)
+            if not same(v1, v2):
+                ctx.fail("C11:Resize(conservative):re-used-object-differs-from-fresh-object",
+                         f"call {n} of one Resize(target {T}) object on inputs of shapes {shapes_in}: sum {None if isinstance(v1, Raised) else float(np.sum(v1, dtype=float))} "
+                         f"(input sum {float(np.sum(a, dtype=float))}), a fresh object gives {v2 if isinstance(v2, Raised) else float(np.sum(v2, dtype=float))}",
+                         {"op": "resize-seq", "target": T, "shapes": shapes_in, "values": [x.ravel().tolist() for x in arrs], "call": n, "image": as_image, "dtype": dtype.__name__})
+                break
+            outs.append(v1)
+        else:
+            if not any(isinstance(o, Raised) for o in outs) and len(lines) < ctx.pick(600, 6000):
+                line = f"rseq {T[0]} {T[1]} {k} " + " ".join(f"{a.shape[0]} {a.shape[1]} {flist(a.ravel().tolist())}" for a in arrs)
+                corr("resize-seq", line, ("seq", outs), False)
+    ctx.cov["resize_sequence_calls"] = n_seq
+
     # ------------------------------------------------------------------ uniform refinement / coarsening
     n_ref = 0
     shapes = [(4, 6), (3, 5), (8, 8), (6, 4), (2, 2), (1, 4), (5, 5), (16, 8), (2, 2, 4), (4, 2, 2), (3, 2, 2), (8,), (6,), (5,)]
@@ -478,7 +517,10 @@ def run(ctx):
     got = ctx.model(lines)
     bad = []
     for i, (g, a, ex) in enumerate(zip(got, impl, exact)):
-        if isinstance(a, tuple) and a[1] is None:  # shape only
+        if isinstance(a, tuple) and a[0] == "seq":  # results of successive calls on one object
+            parts_ = g.split(" ; ")
+            ok = len(parts_) == len(a[1]) and all(vals_close(p_, o_, ex) for p_, o_ in zip(parts_, a[1]))
+        elif isinstance(a, tuple) and a[1] is None:  # shape only
             ok = g.strip() == a[0]
         elif isinstance(a, tuple):  # "shape | values"
             shp, arr = a
@@ -497,7 +539,7 @@ def run(ctx):
     if bad:
         i = min(bad, key=lambda k: len(lines[k]))
         a = impl[i]
-        shown = repr(a) if isinstance(a, Raised) else fmts(np.asarray(a[1] if isinstance(a, tuple) else a, dtype=float).ravel().tolist())
+        shown = repr(a) if isinstance(a, Raised) else str(a[1])[:400] if isinstance(a, tuple) and a[0] == "seq" else fmts(np.asarray(a[1] if isinstance(a, tuple) else a, dtype=float).ravel().tolist())
         ctx.mark("CORR-BROKEN", {"correspondence": names[i], "request": lines[i][:1500], "model": got[i][:1500], "impl": shown[:1500], "n_diffs": len(bad)})
         ctx.log(f"correspondence {names[i]}: {len(bad)} disagreements, e.g. {lines[i][:160]} model={got[i][:120]} impl={shown[:120]}")
     ctx.cov["rule"] = ("Resize: base + random shapes <= 9x9, all (quick: sampled) smaller targets and integer multiples, float32/float64, scalar/vector/series; "
